@@ -271,6 +271,12 @@ func ColdStart(ch *Check, k int) int {
 	}
 	close(start)
 	wg.Wait()
+	if ch.ColdStartVerify != nil {
+		if msg := ch.ColdStartVerify(); msg != "" {
+			fmt.Println("COLDSTART-VIOLATION " + msg)
+			return 3
+		}
+	}
 	return 0
 }
 
@@ -291,6 +297,17 @@ func coldStartProbes(env Env, ch *Check) []Violation {
 		cancel()
 		if err == nil {
 			continue
+		}
+		if b, e := os.ReadFile(lf); e == nil {
+			if i := strings.Index(string(b), "COLDSTART-VIOLATION "); i >= 0 {
+				msg := string(b[i+len("COLDSTART-VIOLATION "):])
+				if j := strings.IndexByte(msg, '\n'); j >= 0 {
+					msg = msg[:j]
+				}
+				return []Violation{{Property: ch.ID, Kind: "damaged-at-first-use", Confirmed: true,
+					Case:   Case{Desc: "first calls of a process from 16 goroutines at once"},
+					Detail: "in a fresh process whose first library calls were made by 16 goroutines at the same moment: " + msg}}
+			}
 		}
 		if msg, fn := libraryConcurrencyFatal(lf); msg != "" {
 			b, _ := os.ReadFile(lf)
